@@ -94,6 +94,19 @@ func c12Cases() []hs12Case {
 				cs = append(cs, hs12Case{Kind: "fake-client", MemFd: memfd, Network: "unix", Step: st, Fault: f})
 			}
 		}
+		// the client announces memory of which one half cannot be mapped (the other half can): step = the step that carries it
+		for _, f := range []string{"bad-queue", "bad-buffer"} {
+			st := 0
+			if memfd {
+				st = 4
+				if f == "bad-buffer" {
+					// in one process the server finds the scripted client's own buffer manager under the announced name and never
+					// maps the descriptor it received: an unusable buffer descriptor cannot be told apart here
+					continue
+				}
+			}
+			cs = append(cs, hs12Case{Kind: "fake-client", MemFd: memfd, Network: "unix", Step: st, Fault: f})
+		}
 		vers := []int{3}
 		if memfd {
 			vers = []int{3, 2}
@@ -201,7 +214,14 @@ func metaBytes(t eventType, ver int, q, bp string) []byte {
 func (p *fakePeer) runFakeClient(conf *Config) {
 	defer close(p.done)
 	if !p.c.MemFd {
-		p.completed = p.send(metaBytes(typeShareMemoryByFilePath, 2, p.pm.qPath, p.pm.bPath), 0)
+		q, b := p.pm.qPath, p.pm.bPath
+		switch p.c.Fault {
+		case "bad-queue":
+			q += "_missing"
+		case "bad-buffer":
+			b += "_missing"
+		}
+		p.completed = p.send(metaBytes(typeShareMemoryByFilePath, 2, q, b), 0)
 		return
 	}
 	if !p.send(hdrBytes(typeExchangeProtoVersion, 3), 0) {
@@ -224,12 +244,27 @@ func (p *fakePeer) runFakeClient(conf *Config) {
 		case "resume":
 			<-p.release
 			p.resumed = true
+		case "bad-queue", "bad-buffer":
 		default:
 			<-p.release
 			return
 		}
 	}
-	if err := syscall.Sendmsg(p.fd, nil, syscall.UnixRights(p.pm.bm.memFd, p.pm.qm.memFd), nil, 0); err != nil {
+	bfd, qfd := p.pm.bm.memFd, p.pm.qm.memFd
+	if p.c.Fault == "bad-queue" || p.c.Fault == "bad-buffer" {
+		// an empty memory object: it can be received but not mapped
+		empty, err := syscall.MemfdCreate("shmipc"+censusPrefix()+"empty", 0)
+		if err != nil {
+			harnessFail("memfd_create: %v", err)
+		}
+		defer syscall.Close(empty)
+		if p.c.Fault == "bad-queue" {
+			qfd = empty
+		} else {
+			bfd = empty
+		}
+	}
+	if err := syscall.Sendmsg(p.fd, nil, syscall.UnixRights(bfd, qfd), nil, 0); err != nil {
 		return
 	}
 	if h, ok := p.recv(headerSize, 5); ok && header(h).MsgType() == typeAckShareMemory {
